@@ -100,7 +100,11 @@ pub fn run(cases: Vec<(String, Value)>, max_fail: usize, opts: &HashMap<String, 
         if case["fault"].as_str().unwrap_or("none") != "none" {
             return out;
         }
-        let p = parse_out(&case["out"]);
+        let mut p = parse_out(&case["out"]);
+        // expression literals re-spelled from the literal pool (array sizes are never `1` in SplStatic and stay as they are):
+        // every literal is an int for the type rules, whatever its lexeme
+        distinct_literals(&mut p);
+        let p = p;
         out.nontrivial = p.toks.iter().filter(|t| t.kind == "Ident").count() >= 4;
         let decls: HashMap<String, Value> = case["decls"].as_array().cloned().unwrap_or_default().into_iter().map(|d| (d["id"].as_str().unwrap_or("").to_string(), d)).collect();
         let bind: Vec<String> = p.toks.iter().map(|t| t.extra.first().cloned().unwrap_or_default()).collect();
